@@ -133,4 +133,30 @@ theorem finish_then_larger (d d1 : Disk) (t t' m : Nat) (h : life d t = some (d1
 example : life { cstep := 0, rfrom := none } 5 = some ({ cstep := 5, rfrom := some 0 }, 5)
     ∧ life { cstep := 5, rfrom := some 0 } 6 = some ({ cstep := 6, rfrom := some 5 }, 1) := by decide
 
+/-- **The stop rule does not depend on the number of workers.**  `setup_config` reads
+    `runner.workers` nowhere in the rule: whatever the worker count, the decision is the one for the
+    same `(cstep, restarted_from, steps)`. -/
+theorem setup_rule_ignores_workers (c : RestartCfg) (w : Nat) :
+    setupRuleCfg { c with workers := w } = setupRuleCfg c ∧ setupRuleCfg c = setupRule c.cstep c.rfrom c.steps :=
+  ⟨rfl, rfl⟩
+
+example : setupRuleCfg { cstep := 5, rfrom := some 5, steps := 6, workers := 3 } = .go 5
+    ∧ setupRuleCfg { cstep := 5, rfrom := some 5, steps := 6, workers := 1 } = .go 5 := by decide
+
+/-- **Raising the step count by fewer than `workers` after a no-op restart still continues.**
+    For every worker count `w`, every raise `d ≥ 1` (in particular `d < w`), and whatever
+    `restarted_from` says (a finished run started again unchanged leaves `restarted_from = cstep`):
+    the restart is not refused, and the life completes exactly `d` moves and ends at `cstep + d`. -/
+theorem short_raise_after_noop_continues (c d w : Nat) (rf : Option Nat) (hd : 1 ≤ d) :
+    setupRuleCfg { cstep := c, rfrom := rf, steps := c + d, workers := w } = .go c ∧
+    life { cstep := c, rfrom := rf } (c + d) = some ({ cstep := c + d, rfrom := some c }, d) := by
+  have h := larger_steps_continue c rf (c + d) (by omega)
+  refine ⟨h, ?_⟩
+  unfold life
+  rw [h]
+  simp only [Option.some.injEq, Prod.mk.injEq, Disk.mk.injEq, and_true]
+  omega
+
+example : life { cstep := 4, rfrom := some 4 } 5 = some ({ cstep := 5, rfrom := some 4 }, 1) := by decide
+
 end Infretis.C17Sched
